@@ -267,7 +267,7 @@ pub fn not_covered() -> Vec<(&'static str, &'static str)> {
         ("warp_core::causal_wal::TopologyIntentRecord", "encode-only enum wrapper (no from_payload_bytes); its five member records are covered individually"),
         ("warp_core::head_inbox EINGR001 writer", "no v1 writer exists; the v1 reader is checked against the canonical form the reader itself defines (v2 writer bytes with the v1 magic)"),
         ("echo_wasm_abi::{pack,unpack}_import_suffix_intent_v1", "covered at the envelope layer by intent-envelope-v1 and at the DTO layer by decode_cbor; ImportSuffixRequest values need a full CausalSuffixBundle graph (not generated)"),
-        ("echo_wasm_abi kernel_port DTOs other than the 16 listed abi-dto:* entries", "~100 serde-derived structs share the one generic decode_cbor/encode_cbor path; a representative set with every serde shape (struct, option fields, internally/adjacently/externally tagged enums, transparent newtypes, opaque ids, flatten) is covered"),
+        ("echo_wasm_abi kernel_port DTOs other than the 17 listed abi-dto:* entries", "~100 serde-derived structs share the one generic decode_cbor/encode_cbor path; a representative set with every serde shape (struct, option fields, internally/adjacently/externally tagged enums, transparent newtypes, opaque ids, flatten) is covered"),
         ("warp_core::wsc::store WscStoreEnvelope record codecs (*_to/from_wsc_envelope)", "operate on typed envelopes built from WSC files, not on a flat byte string; WSC bytes themselves are covered (round trip in C12, lying fields in C13)"),
     ]
 }
